@@ -28,6 +28,8 @@ def query(kind, name, n):
     """the three kinds of query values"""
     if kind == "scalar":
         return z3.Real(name)
+    if kind == "int-ndarray":
+        return K.sym_arr(name, n, "i")      # integer dtype query values (e.g. np.array([300, 310]))
     a = K.sym_arr(name, n, "f")
     if kind == "series":
         return K.Series(n, a.f, "f", name)
@@ -72,9 +74,11 @@ def prop_constant(ctx):
     ctx.assume("A1", "A4", "A6")
     n, r, v = z3.Int("NQ"), z3.Int("r"), z3.Real("value")
     attrs = lambda: {"value": v, "warn_dependent_variables": False}
-    for kind in KINDS:
+    for kind in KINDS + ("int-ndarray",):
         paths = run_method(ctx, "FluidPropertyConstant", "get_at_value", attrs, lambda: [query(kind, "arg", n)])
         value_obligations(ctx, "value/" + kind, paths, lambda: v, kind, n, r)
+        if kind == "int-ndarray":
+            continue
         paths = run_method(ctx, "FluidPropertyConstant", "get_at_integral_value", attrs,
                            lambda: [query(kind, "upper", n), query(kind, "lower", n)])
         u, l = query(kind, "upper", n), query(kind, "lower", n)
